@@ -31,8 +31,18 @@
       waits for the victim, already running or started afterwards, must run to
       its end) and the withholding responder of the generated programs.  That
       is evidence for the generated programs and switch intervals only; the
-      clause is labelled partial. *)
+      clause is labelled partial.
+    * Attribution of the debugger's own TEXT (stop location, --Call-- /
+      --Return-- banners, output of debugger commands in OnStartPrompt.prompt_text):
+      C06_prompt_text_is_own is likewise TRUE BY CONSTRUCTION of Ids/Text.v, which
+      has one text buffer per trace because pdb_/factory.py creates one StdInOut
+      per trace.  Whether the code really keeps the buffers apart (seeded change
+      C06-3 shared one) is checked by the text clause of the oracle in
+      harness/props/c06.py on every prompt of every run, in particular in the
+      barrier scenarios that hold two or three threads between Pdb's location
+      print and its prompt (gate at OnStartCmdloop) in every prompt order. *)
 From NL Require Import Ids.Model Ids.Inv.
+From NL Require Ids.Text.
 From NL Require Prompt.Model Prompt.Hist Prompt.Indep.
 Open Scope Z_scope.
 
@@ -100,6 +110,20 @@ Theorem C06_answer_is_delivered : forall s t p x,
    Prompt.Model.OExec p (Prompt.Model.s_nsent s) (Prompt.Model.mkCmd t p x)].
 Proof. exact Prompt.Indep.answer_is_delivered. Qed.
 
+(** a readline of trace t returns exactly what t's own Pdb wrote since t's
+    previous readline ([pending] is a function of the history) -- by construction *)
+Theorem C06_prompt_text_is_own : forall pre t post,
+  nth_error (snd (Ids.Text.trun Ids.Text.tinit (pre ++ Ids.Text.TRead t :: post))) (length pre) =
+  Some (Some (Ids.Text.pending t (rev pre))).
+Proof. exact Ids.Text.read_returns_own_text. Qed.
+
+Example C06_example_prompt_text :
+  snd (Ids.Text.trun Ids.Text.tinit
+         [Ids.Text.TWrite 2 10; Ids.Text.TWrite 3 20; Ids.Text.TWrite 2 11; Ids.Text.TRead 2;
+          Ids.Text.TWrite 3 21; Ids.Text.TRead 3; Ids.Text.TRead 2]) =
+  [None; None; None; Some [10; 11]; None; Some [20; 21]; Some []].
+Proof. vm_compute. reflexivity. Qed.
+
 (** non-vacuity: main thread, a task of the main thread, a second thread whose
     first traced frame belongs to a task, a second task there *)
 Definition ex_run : list label :=
@@ -139,3 +163,4 @@ Print Assumptions C06_end_attribution.
 Print Assumptions C06_independent.
 Print Assumptions C06_independent_of_blocked_trace.
 Print Assumptions C06_answer_is_delivered.
+Print Assumptions C06_prompt_text_is_own.
